@@ -79,10 +79,11 @@ fn do_transpose<'a>(
                     for (i, val) in order.0.iter().enumerate() {
                         order_decode[*val] = i;
                     }
+                    // The encoded elements are laid out with the transposed subset shape
                     Ok(super::transpose_vlen(
                         &bytes,
                         &offsets,
-                        &subset.shape_usize(),
+                        &permute(&subset.shape_usize(), &order.0),
                         order_decode,
                     ))
                 }
